@@ -6,7 +6,7 @@ from __future__ import annotations
 
 from itertools import product
 
-from ..interp import analyze
+from ..interp import analyze, truth
 from ..model import AnalysisError
 from ..report import Ctx, where
 from ..terms import show, walk
@@ -142,20 +142,31 @@ def cmp_rules(ctx: Ctx):
     import ast as _ast
     from ..interp import Analyzer
     an = Analyzer(model, fi)
+    # Every `==` the method evaluates between something of self and something of other is a candidate conjunct. On a
+    # return path that can answer True, the conjuncts that count are those *established* there: known true by the path
+    # facts (an earlier `and` operand, or `if not (...): return False`), the returned comparison itself, or two equal
+    # constants ("/" == "/"). What is compared is re-read from the operands in the returning state.
+    compares = [c for c in _ast.walk(fi.node) if isinstance(c, _ast.Compare) and len(c.ops) == 1 and isinstance(c.ops[0], _ast.Eq)]
     for s, v, node in r.returns:
-        if v[0] == "cmp" and v[1] == "Eq" and s.facts.get(v) is None and mentions(v, S) and mentions(v, O):
-            # the state in which every conjunct was evaluated: re-read the operands of each conjunct in it
-            expr = node.value
-            conj = expr.values if isinstance(expr, _ast.BoolOp) and isinstance(expr.op, _ast.And) else [expr]
-            pairs = []
-            for c in conj:
-                if not (isinstance(c, _ast.Compare) and len(c.ops) == 1 and isinstance(c.ops[0], _ast.Eq)):
-                    raise AnalysisError(f"_url.URL.__eq__: conjunct `{_ast.unparse(c)}` is not a single == comparison")
-                a = an.eval(c.left, s)
-                b = an.eval(c.comparators[0], s)
-                if len(a) != 1 or len(b) != 1:
-                    raise AnalysisError(f"_url.URL.__eq__: conjunct `{_ast.unparse(c)}` has conditional operands")
-                pairs.append(("cmp", "Eq", a[0][1], b[0][1]))
+        if v in (("builtin", "NotImplemented"), ("const", False)) or truth(v, s.facts) is False:
+            continue
+        pairs = []
+        for c in compares:
+            a = an.eval(c.left, s)
+            b = an.eval(c.comparators[0], s)
+            if len(a) != 1 or len(b) != 1:
+                continue
+            a, b = a[0][1], b[0][1]
+            term = ("cmp", "Eq", a, b)
+            about = any(mentions(x, S) or mentions(x, O) for x in (a, b))       # "/" == other._path counts as well
+            if not (about or (a[0] == "const" and b[0] == "const")):
+                continue
+            if term == v or truth(term, s.facts) is True or (a == b and a[0] == "const"):
+                if a[0] == "tuple" and b[0] == "tuple" and len(a[1]) == len(b[1]):
+                    pairs.extend(("cmp", "Eq", x, y) for x, y in zip(a[1], b[1]))
+                else:
+                    pairs.append(term)
+        if pairs:
             full.append((s.facts, pairs))
     if not full:
         raise AnalysisError("_url.URL.__eq__: no fully evaluated comparison found")
